@@ -31,6 +31,30 @@ CLAIMED = {
    note="Cannot exhibit OS scheduling, SIGTERM latency (approximated by a flag; liveness needs latency=false) or multiprocessing stream corruption on terminate(); hand model tied by correspondence (154+ scenarios per run under a watchdog); three open findings (blocking when all members fail; shared control pipe).",
    design="4 C19"),
 }
+
+CLAIMED.update({
+ "C05": dict(
+   technique="Coq proof (structural induction on terms, coincidence lemma, one transparency lemma per constructor normalisation) + exact-equality model/implementation correspondence for both substitution strategies + independent evaluation of both sides of the substitution lemma",
+   text="coq/props/C05.v: the substitution lemma is proved for the default (most-general) substituter on the fragment `frag` (every operator except Pow, array values, ToReal and BV rotate/extend) for all terms, symbol-keyed maps satisfying the capture proviso and all interpretations; for the most-specific substituter when no replacement is a negation; occurrences under a binder of the key are untouched (both strategies); a key is replaced before its sub-terms (most-general exactness). The MSS lemma and MGS/MSS coincidence on symbol keys are refuted by closed witnesses (open finding). Exactness on arbitrary keys, interpretations and type preservation are carried by the exact structural correspondence (~1600 cases per run) and the evaluation oracle.",
+   note="Trusted: Coq kernel, core/Sem.v (classical/real axioms reported by Print Assumptions), models/Ctors.v (constructor normalisations, correspondence-checked), hand model tied by exact correspondence, harness/refeval.py. Not proved: interp_lemma, subst_typed, operators outside `frag`.",
+   design="4 C05"),
+ "C11": dict(
+   technique="Coq proof over hand models of CNFizer, PolarityCNFizer and convert's clean-up (one structural induction per converter with witness k_g := eval I g, coincidence lemma for the fresh symbols) + exact-name model/implementation correspondence + truth-table / evaluation search; Ackermannization by model + correspondence + search",
+   text="coq/props/C11.v: for every quantifier-free Boolean-structure term, manager state and interpretation: both CNF conversions return sets of clauses of literals; every model of the input extends on the fresh symbols to a model of the output; soundness under the exact computable criterion (see the props file for its current form). Ackermannization: the shape clause is refuted by a closed witness (open finding); its completeness/soundness are covered by correspondence and the evaluation search only.",
+   note="Trusted: Coq kernel, core/Sem.v, hand models tied by correspondence (exact fresh names), simp_sound / shape_hyp hypotheses about the simplifier on theory atoms (C01's subject). Ackermannization has no soundness/completeness theorem.",
+   design="4 C11"),
+ "C16": dict(
+   technique="Coq proof: hand models of SmtLibScript.get_last_formula/get_strict_formula and of the IncrementalTrackingSolver/pending_pop bookkeeping proved to refine an abstract SMT-LIB assertion stack for every legal command list (induction over the list, invariants over the backtrack structures) + exhaustive model/implementation correspondence on all command lists up to length 4 (5-6 thorough) plus random ones to length 60 + independent Python assertion-stack oracle",
+   text="coq/props/C16.v: for every legal command list, what get_last_formula returns is exactly the live assertions and goals; get_strict_formula is characterised exactly; the tracking solver's `assertions` equals the live assertions after every step of every legal history with queries interleaved, and one-shot queries (solve with assumptions, is_sat, is_valid, is_unsat) restore it. Closed under the global context.",
+   note="Trusted: Coq kernel, the spec AssertStack.v, hand models tied by correspondence (the MaxSMTGoal object represented by its position), the harness solver subclass written with the z3.py decorator pattern; options.incremental=True.",
+   design="4 C16"),
+ "C17": dict(
+   technique="Coq proof on a protocol state-machine model (wrapper x strict SMT-LIB solver x reply pipe: refinement invariant by induction over API histories, exact reply-synchronisation criterion) + model/implementation correspondence on the real SmtLibSolver attached to an independent strict reference solver process",
+   text="coq/props/C17.v for every API history: the emitted command stream is accepted by the strict solver spec, replies are attributed to the commands that caused them (exact criterion), solve / is_sat / is_valid / is_unsat return the solver's decision about exactly the user's live assertions, get_model covers the live symbols; clauses the current code violates are kept as refuted witnesses with their partial versions (open findings listed in known_findings.json).",
+   note="Trusted: Coq kernel; hand model tied by correspondence every run; harness/smtref.py (strict reference solver, finite domains, Int in -4..4) and the harness evaluator; the external solver as hypotheses decide_correct / holds_not. Not modelled: behaviour after an exception, OS pipes, declare-sort, simplify() and the printer.",
+   design="4 C17"),
+})
+
 NOT_YET = "machinery for this property is not built yet (work in progress, see DESIGN.md section 8)"
 
 def main():
